@@ -130,3 +130,8 @@ int verif_fopen_calls, verif_fclose_calls;
 FILE *fopen(const char *path, const char *mode) { (void)path; (void)mode; verif_fopen_calls++; return ND_bool("fopen_ok") ? &verif_file : NULL; }
 int fclose(FILE *f) { (void)f; verif_fclose_calls++; return 0; }
 int snprintf(char *s, size_t n, const char *fmt, ...) { (void)fmt; if (n > 0) s[0] = 0; return 0; }
+
+/* Repository units of queries that go through goto-instrument are compiled with -Dfree=verif_free: cbmc 6.11 aborts
+ * with an internal invariant violation (casting_replace_symbol.cpp:93) when a goto binary written by goto-instrument
+ * contains the ADDRESS of the library function free (e.g. g_queue_free_full(q, free)).  Same semantics, one more call. */
+void verif_free(void *p) { free(p); }
